@@ -153,10 +153,11 @@ def matchLabel (t : Str) : Option (Before × Str × Bool) :=
   | c :: _ => if (isWord O) c then some (p.1, (splitAfter p.2).1, (splitAfter p.2).2) else none
   | [] => none
 
-/-- `regex.compile(r"[\s\x1c-\x1f]*# paroxython: .*").sub("", text)` over the WHOLE text: a match starts at
-the first position from which a run of white space (newlines included) is followed by the marker,
-and extends to the end of the marker's line. -/
-def hintAhead (s : Str) : Bool := m14.isPrefixOf (s.dropWhile (isSpacePy O))
+/-- `regex.compile(r"[\s\x1c-\x1f]*# paroxython:.*").sub("", text)` over the WHOLE text: a match starts at
+the first position from which a run of white space (newlines included) is followed by the marker
+(with or without a space after the colon: an empty hint comment at the end of the text has lost it
+to the final trimming, F46), and extends to the end of the marker's line. -/
+def hintAhead (s : Str) : Bool := m13.isPrefixOf (s.dropWhile (isSpacePy O))
 
 def subHints : Bool → Str → Str
   | _, [] => []
@@ -187,8 +188,9 @@ def scanIsolated : List Str → List Str × List Str
     | some rest => (p.1, (splitWs O) rest ++ p.2)
     | none => (l :: p.1, p.2)
 
-/-- `if " # paroxython:" not in line: line += " # paroxython:"`. -/
-def addMarker (l : Str) : Str := if hasInfix (' ' :: m13) l then l else l ++ ' ' :: m13
+/-- `if "# paroxython:" not in line: line += " # paroxython:"` (a hint comment glued to the code
+is a hint comment too, F45). -/
+def addMarker (l : Str) : Str := if hasInfix m13 l then l else l ++ ' ' :: m13
 
 def openTok (h : Str) : Str := ' ' :: h ++ dots3
 def closeTok (h : Str) : Str := ' ' :: dots3 ++ h
